@@ -55,6 +55,10 @@ func main() {
 	out := flag.String("out", "", "scratch output directory")
 	var exports multi
 	flag.Var(&exports, "export", "dir=file: extra source file added to the package in dir (relative to repo root)")
+	var replaces multi
+	flag.Var(&replaces, "replace", "path=file: plain overlay replacement")
+	var durable multi
+	flag.Var(&durable, "durable", "directory of a dependency package whose sync import is replaced by the durable, uncontrolled vsyncd")
 	stats := flag.Bool("stats", false, "print rewrite statistics")
 	flag.Parse()
 	if *out == "" {
@@ -69,6 +73,16 @@ func main() {
 	counts := map[string]int{}
 	for _, d := range dirs {
 		rewriteDir(*repo, *mount, d, *out, exp, overlay, counts)
+	}
+	for _, e := range replaces {
+		path, file, ok := strings.Cut(e, "=")
+		if !ok {
+			fatalf("bad -replace %q", e)
+		}
+		overlay[path] = file
+	}
+	for _, d := range durable {
+		durableDir(d, *out, overlay, counts)
 	}
 	for _, e := range exports {
 		dir, file, ok := strings.Cut(e, "=")
@@ -118,6 +132,54 @@ func exportMap(repo string) map[string]string {
 	return m
 }
 
+// durableDir rewrites only the sync import of every buildable non-test file of dir.
+func durableDir(dir, out string, overlay map[string]string, counts map[string]int) {
+	ents, err := os.ReadDir(dir)
+	if err != nil {
+		fatalf("%v", err)
+	}
+	ctx := build.Default
+	ctx.GOOS, ctx.GOARCH = "linux", "amd64"
+	for _, e := range ents {
+		n := e.Name()
+		if e.IsDir() || !strings.HasSuffix(n, ".go") || strings.HasSuffix(n, "_test.go") {
+			continue
+		}
+		if ok, err := ctx.MatchFile(dir, n); err != nil || !ok {
+			continue
+		}
+		fset := token.NewFileSet()
+		f, err := parser.ParseFile(fset, filepath.Join(dir, n), nil, parser.ParseComments)
+		if err != nil {
+			fatalf("parse: %v", err)
+		}
+		changed := false
+		for _, im := range f.Imports {
+			if im.Path.Value == `"sync"` {
+				if im.Name != nil && im.Name.Name != "sync" {
+					fatalf("%s: renamed sync import", n)
+				}
+				im.Path.Value = strconv.Quote("verif/engine/vsyncd")
+				im.Name = ast.NewIdent("sync")
+				changed = true
+			}
+		}
+		if !changed {
+			continue
+		}
+		counts["durable"]++
+		var buf bytes.Buffer
+		if err := format.Node(&buf, fset, f); err != nil {
+			fatalf("format %s: %v", n, err)
+		}
+		dst := filepath.Join(out, "dep__"+strings.ReplaceAll(strings.TrimPrefix(dir, "/"), "/", "__")+"__"+n+".src")
+		if err := os.WriteFile(dst, buf.Bytes(), 0o644); err != nil {
+			fatalf("%v", err)
+		}
+		overlay[filepath.Join(dir, n)] = dst
+	}
+}
+
 type rw struct {
 	fset   *token.FileSet
 	info   *types.Info
@@ -160,7 +222,7 @@ func rewriteDir(repo, mount, rel, out string, exp map[string]string, overlay map
 		}
 		return os.Open(p)
 	})
-	info := &types.Info{Types: map[ast.Expr]types.TypeAndValue{}, Uses: map[*ast.Ident]types.Object{}}
+	info := &types.Info{Types: map[ast.Expr]types.TypeAndValue{}, Uses: map[*ast.Ident]types.Object{}, Selections: map[*ast.SelectorExpr]*types.Selection{}}
 	conf := types.Config{Importer: imp, Error: func(err error) { fatalf("typecheck: %v", err) }}
 	pkgPath := modulePath
 	if rel != "." {
@@ -218,6 +280,25 @@ func (r *rw) isPkgSel(e ast.Expr, pkg, name string) bool {
 	}
 	pn, ok := r.info.Uses[id].(*types.PkgName)
 	return ok && pn.Imported().Path() == pkg
+}
+
+func recvTypeName(o types.Object) string {
+	f, ok := o.(*types.Func)
+	if !ok {
+		return ""
+	}
+	sig := f.Type().(*types.Signature)
+	if sig.Recv() == nil {
+		return ""
+	}
+	t := sig.Recv().Type()
+	if p, ok := t.(*types.Pointer); ok {
+		t = p.Elem()
+	}
+	if n, ok := t.(*types.Named); ok {
+		return n.Obj().Name()
+	}
+	return ""
 }
 
 func (r *rw) isBuiltin(e ast.Expr, name string) bool {
@@ -361,6 +442,20 @@ func (r *rw) rewriteFile(f *ast.File) bool {
 			}
 			if r.isPkgSel(n.Fun, "time", "AfterFunc") || r.isPkgSel(n.Fun, "time", "Tick") {
 				fatalf("%s: time.AfterFunc/Tick not supported", r.file)
+			}
+			// methods of sync.Mutex / RWMutex / Once / WaitGroup get the original call site
+			if sel, ok := n.Fun.(*ast.SelectorExpr); ok {
+				if sl := r.info.Selections[sel]; sl != nil && sl.Obj().Pkg() != nil && sl.Obj().Pkg().Path() == "sync" {
+					switch sel.Sel.Name {
+					case "Lock", "RLock", "Do", "Wait":
+						if named := recvTypeName(sl.Obj()); named == "Mutex" || named == "RWMutex" || named == "Once" || named == "WaitGroup" {
+							st := r.site(n)
+							sel.Sel = ast.NewIdent(sel.Sel.Name + "At")
+							n.Args = append([]ast.Expr{st}, n.Args...)
+							r.counts["sync."+named+"."+sel.Sel.Name]++
+						}
+					}
+				}
 			}
 			if r.isBuiltin(n.Fun, "close") {
 				st := r.site(n)
